@@ -32,6 +32,9 @@ def configs(tier, seed):
             al = rng.choice([0, 0, 1, 2, 3])
             cfgs.append({"n": n, "dw": dw, "align": al, "modes": [rng.choice(["level", "rise", "fall"]) for _ in range(n)]})
     cfgs.append({"n": 12, "dw": 8, "align": 0, "modes": ["level"] * 12})
+    # registers of 3, 5, 6, 7 bus words, unaligned (alignment < 2): pending starts where shadow offsets wrap around
+    for n, dw, al in [(17, 8, 0), (20, 8, 1), (24, 8, 0), (33, 16, 0)] + ([] if tier == "quick" else [(33, 8, 0), (41, 8, 1), (50, 8, 0)]):
+        cfgs.append({"n": n, "dw": dw, "align": al, "modes": [rng.choice(["level", "rise", "fall"]) for _ in range(n)]})
     cfgs.append({"n": 3, "dw": 8, "align": 3, "modes": ["rise", "fall", "level"]})
     return cfgs
 
@@ -95,7 +98,7 @@ def check_config(ctx, cfg):
     csrtarget.read_clauses(ctx, nl, mon.bus, regs)
     csrtarget.write_clauses(ctx, nl, mon.bus, regs)
     # (ii) glue
-    f0 = nl.frame("g0"); f1 = nl.frame("g1", prev=f0); fr = nl.frame("gr", state=nl.reset_state())
+    fp = nl.frame("gp"); f0 = nl.frame("g0", prev=fp); f1 = nl.frame("g1", prev=f0); fr = nl.frame("gr", state=nl.reset_state())
     one, zero = z3.BitVecVal(1, 1), z3.BitVecVal(0, 1)
     if n == 0:
         ctx.prove("irq_line", f0.val(mon.src.i) == 0, frames=[f0])
@@ -110,11 +113,15 @@ def check_config(ctx, cfg):
     for s in srcs:
         k = emap.index(s)
         bit = lambda v: z3.Extract(k, k, v)
-        conj.append(bit(pe1) == z3.If(f0.val(s.trg) == 1, one, z3.If(z3.And(pw_stb == 1, bit(pw_data) == 1), zero, bit(pe0))))
-    ctx.prove("pending_w1c", z3.And(*conj), frames=[f0, f1])
+        # the trigger as the PROPERTY defines it, from the source's input now and one cycle earlier
+        cur, prv = f0.inp(s.i), fp.inp(s.i)
+        trg = {"level": cur, "rise": ~prv & cur, "fall": prv & ~cur}[s.trigger.value]
+        conj.append(bit(pe1) == z3.If(trg == 1, one, z3.If(z3.And(pw_stb == 1, bit(pw_data) == 1), zero, bit(pe0))))
+    ctx.prove("pending_w1c", z3.And(*conj), frames=[fp, f0, f1])
     ctx.prove("irq_line", f0.val(mon.src.i) == z3.If((en0 & pe0) != 0, one, zero), frames=[f0])
     ctx.prove("reset_values", z3.And(fr.val(en["elem"].r_data) == 0, fr.val(pe["elem"].r_data) == 0), frames=[fr])
     ctx.canary("write_zero_clears", z3.Implies(z3.And(pw_stb == 1, pw_data == 0, *[f0.val(s.trg) == 0 for s in srcs]), pe1 == 0))
+    _ = fp
 
 
 def main(run: Run):
